@@ -129,6 +129,8 @@ struct Ctx<'a> {
     forced: BTreeSet<usize>,
     locals: Vec<(String, Ty)>,
     tpars: Vec<String>,
+    /// type parameters without a `Dim` bound that were used where a dimension is required
+    forced_tpars: BTreeSet<String>,
 }
 
 type R<T> = Result<T, Stop>;
@@ -139,7 +141,7 @@ fn unsup<T>(s: impl Into<String>) -> R<T> {
 
 impl<'a> Ctx<'a> {
     fn new(w: &'a World) -> Ctx<'a> {
-        Ctx { w, eqs: vec![], next_unk: 0, forced: BTreeSet::new(), locals: vec![], tpars: vec![] }
+        Ctx { w, eqs: vec![], next_unk: 0, forced: BTreeSet::new(), locals: vec![], tpars: vec![], forced_tpars: BTreeSet::new() }
     }
     fn fresh(&mut self) -> V {
         let v = V::atom(Atom::Unk(self.next_unk));
@@ -150,6 +152,29 @@ impl<'a> Ctx<'a> {
         for u in v.unknowns() {
             self.forced.insert(u);
         }
+        for a in v.0.keys() {
+            if let Atom::TPar(n) = a {
+                if is_unbounded_tpar(n) {
+                    self.forced_tpars.insert(n.clone());
+                }
+            }
+        }
+    }
+    /// after `solve`: an unbounded type parameter that a dimension-only position depends on
+    fn missing_dim_bound(&self, sol: &BTreeMap<usize, V>) -> Option<String> {
+        let mut bad = self.forced_tpars.clone();
+        for (j, v) in sol {
+            if self.forced.contains(j) {
+                for a in v.0.keys() {
+                    if let Atom::TPar(n) = a {
+                        if is_unbounded_tpar(n) {
+                            bad.insert(n.clone());
+                        }
+                    }
+                }
+            }
+        }
+        bad.into_iter().next().map(|n| format!("type parameter {n} is used as a dimension but is declared without a Dim bound"))
     }
     fn force_ty(&mut self, t: &Ty) {
         let mut ls = Vec::new();
@@ -439,6 +464,7 @@ impl<'a> Ctx<'a> {
             .iter()
             .map(|a| match a {
                 Atom::Unk(i) => self.forced.contains(i),
+                Atom::TPar(n) => !is_unbounded_tpar(n),
                 _ => true,
             })
             .collect();
@@ -495,6 +521,9 @@ pub fn analyse_stmt(w: &mut World, s: &S) -> Result<Line, Result<String, String>
                 c.equate(&tb, &ta, "return type annotation").map_err(un)?;
             }
             let sol = c.solve().map_err(Ok)?;
+            if let Some(why) = c.missing_dim_bound(&sol) {
+                return Err(Ok(why));
+            }
             let sch = c.generalise(&Ty::F(pts, Box::new(tb)), &sol);
             w.fns.insert(name.clone(), sch.clone());
             Ok(Line::Fn(name.clone(), sch))
